@@ -4,6 +4,7 @@ import (
 	"context"
 	"encoding/json"
 	"fmt"
+	"github.com/ajitpratap0/GoSQLX/pkg/sql/parser"
 	"os"
 	"os/exec"
 	"runtime"
@@ -26,6 +27,55 @@ import (
 func init() {
 	props["C10"] = runC10
 	props["C10R"] = runC10Workload
+	props["C10C"] = runC10Cold
+}
+
+// runC10Cold (run in a fresh race-built process): the very first use of every entry point happens concurrently — the
+// lazily built tables (scanner patterns, keyword sets, pools) are initialised under contention; each answer is then
+// compared with what the same call returns once everything is quiet.
+func runC10Cold(c *runCtx) {
+	res := c.res
+	ops := c10ops()
+	inputs := []string{"SELECT a FROM t WHERE 1=1 OR 'a'='a' UNION SELECT password FROM users -- x", "SELECT SLEEP(5); DROP TABLE t", "select  a   from t  \n",
+		"SELECT a, COUNT(*) FROM t JOIN u ON t.i = u.i WHERE b IN (SELECT 1) GROUP BY a ORDER BY a LIMIT 3", "; SELECT 1", "SELECT a FROM t LIMIT 5, 10", "SELECT 'unterminated"}
+	type ans struct {
+		op, in int
+		got    string
+	}
+	var mu sync.Mutex
+	var got []ans
+	var wg sync.WaitGroup
+	start := make(chan struct{})
+	for rep := 0; rep < 3; rep++ {
+		for oi := range ops {
+			for ii := range inputs {
+				wg.Add(1)
+				go func(oi, ii int) {
+					defer wg.Done()
+					<-start
+					if (oi+ii)%2 == 1 {
+						runtime.Gosched()
+					}
+					g := ops[oi].f(inputs[ii])
+					mu.Lock()
+					got = append(got, ans{oi, ii, g})
+					mu.Unlock()
+				}(oi, ii)
+			}
+		}
+	}
+	close(start)
+	wg.Wait()
+	for _, a := range got {
+		res.count(fmt.Sprintf("cold|%d|%d", a.op, a.in), true)
+		if ops[a.op].name == "stats" || ops[a.op].name == "configure-pooled" {
+			continue
+		}
+		if alone := ops[a.op].f(inputs[a.in]); alone != a.got {
+			res.fail("cold-start-result-differs:"+ops[a.op].name, "a call made while the library was being used for the first time by many goroutines returned something else than when run alone",
+				map[string]any{"op": ops[a.op].name, "input": inputs[a.in]}, map[string]any{"concurrent": truncate(a.got, 300), "alone": truncate(alone, 300)})
+		}
+	}
 }
 
 // runC10: builds the harness with the race detector and runs the concurrent workload in it.
@@ -57,6 +107,29 @@ func runC10(c *runCtx) {
 	case <-time.After(time.Duration(c.n(600, 3000)) * time.Second):
 		_ = run.Process.Kill()
 		res.fail("concurrent-workload-hang", "the concurrent workload did not finish", nil, nil)
+	}
+	// cold starts: fresh processes whose first calls are concurrent
+	for k := 0; k < c.n(4, 20); k++ {
+		coldOut := verifDir + "/.work/C10C.result.json"
+		os.Remove(coldOut)
+		cold := exec.Command(raceBin, "run", "C10C", "--tier", c.tier, "--seed", fmt.Sprint(c.seed+int64(k)), "--out", coldOut)
+		cold.Env = append(os.Environ(), "GORACE=halt_on_error=0 history_size=2")
+		var cerr strings.Builder
+		cold.Stderr = &cerr
+		_ = cold.Run()
+		stderr.WriteString(cerr.String())
+		if raw, err := os.ReadFile(coldOut); err == nil {
+			var sub Result
+			if json.Unmarshal(raw, &sub) == nil {
+				res.Evaluations += sub.Evaluations
+				res.Distinct += sub.Distinct
+				for _, f := range sub.Failures {
+					res.fail(f.Key, f.What, f.Witness, f.Detail)
+				}
+			}
+		} else {
+			res.fail("cold-start-crashed", "a process whose first calls were concurrent died", truncate(cerr.String(), 1500), nil)
+		}
 	}
 	// data races
 	races := strings.Split(stderr.String(), "WARNING: DATA RACE")
@@ -181,6 +254,32 @@ func c10ops() []c10op {
 			r := lint.LintString(in, "x.sql")
 			return fmt.Sprint(len(r.Violations))
 		}},
+		{"configure-pooled", func(in string) string {
+			// a holder that configures pooled instances and gives them back, with or without using them
+			p := parser.GetParser()
+			p.ApplyOptions(parser.WithStrictMode(), parser.WithDialect("mysql"))
+			if len(in)%2 == 0 {
+				t := tokenizer.GetTokenizer()
+				if toks, err := t.Tokenize([]byte(in)); err == nil {
+					if tree, err := p.ParseFromModelTokens(toks); err == nil {
+						ast.ReleaseAST(tree)
+					}
+				}
+				tokenizer.PutTokenizer(t)
+			}
+			parser.PutParser(p)
+			return ""
+		}},
+		{"parser.Validate", func(in string) string { return errCode(parser.Validate(in)) }},
+		{"parser.ParseBytes", func(in string) string {
+			tree, err := parser.ParseBytes([]byte(in))
+			if err != nil {
+				return errCode(err)
+			}
+			d := dumpNode(tree)
+			ast.ReleaseAST(tree)
+			return d
+		}},
 		{"stats", func(in string) string { _ = metrics.GetStats(); return "" }},
 	}
 }
@@ -195,7 +294,7 @@ func runC10Workload(c *runCtx) {
 	res := c.res
 	ops := c10ops()
 	inputs := append([]string{}, builtinCorpus...)
-	inputs = append(inputs, "SELECT 'unterminated", "SELECT FROM", "SELECT a FROM t WHERE 1=1 OR 'a'='a'", "select  a   from t  ", "SELECT SLEEP(5)")
+	inputs = append(inputs, "; SELECT 1", "SELECT 1;; SELECT 2", "SELECT a FROM t LIMIT 10, 20", "SELECT `a` FROM `t`", "SELECT 'unterminated", "SELECT FROM", "SELECT a FROM t WHERE 1=1 OR 'a'='a'", "select  a   from t  ", "SELECT SLEEP(5)")
 	g := newSQLGen(c.rng.Fork())
 	for i := 0; i < c.n(60, 400); i++ {
 		inputs = append(inputs, g.Statement())
@@ -241,7 +340,7 @@ func runC10Workload(c *runCtx) {
 				defer wg.Done()
 				for _, j := range js {
 					got := ops[j.op].f(inputs[j.in])
-					if ops[j.op].name != "stats" && got != oracle[j.op][j.in] {
+					if ops[j.op].name != "stats" && ops[j.op].name != "configure-pooled" && got != oracle[j.op][j.in] {
 						mu.Lock()
 						res.fail("concurrent-result-differs:"+ops[j.op].name, "a call made concurrently returned something else than when run alone",
 							map[string]any{"op": ops[j.op].name, "input": inputs[j.in], "goroutines": N},
